@@ -21,6 +21,7 @@ type Tmpl struct {
 	Src     string
 	Expect  string // "" when only the compiled program is the expectation
 	RefSrc  string // what the toolchain compiles when it differs from Src (Src imports the host package verif)
+	ForceP1 bool   // one configuration runs the program on a single processor (GOMAXPROCS=1, no hook)
 	Parties int    // > 0: the program calls verif.Mark before the statement under test; one configuration runs it
 	// under the lock-step barrier with that many goroutines
 	// host
@@ -35,6 +36,7 @@ var templates = []func(r *rand.Rand) Tmpl{
 	tGoArgCopy, tSelectMux, tPingPong, tParallelFib, tMethodGoroutines, tSemaphore, tSelectSharedSend,
 	tGoBinArgs, tRWMutexMap, tOnceAtomic, tNestedSpawn, tSelectDefaultPoll, tGoBinNoReassign, tMethodViaClosure, tGoFuncVar, tClosureSlice,
 	tPrivateRecv, tPrivateRecv2, tPrivateSend, tPrivateRange, tPrivateSelect, tPrivateSelectForms, tPrivateRecvForms,
+	tSpawnLit, tSpawnFuncValue, tSpawnMethod, tSpawnDeclared, tSpawnHost,
 }
 
 func tPipeline(r *rand.Rand) Tmpl {
@@ -1287,6 +1289,116 @@ func tPrivateRecvForms(r *rand.Rand) Tmpl {
 		}
 `+countOwn+`		out <- v
 	}`)
+}
+
+// Spawner loops: the operands of the go statement are variables of REFERENCE kinds (chan, pointer, map, func) declared
+// outside the loop and reassigned at each iteration; the go statement evaluates them, so worker w owns channel w,
+// slot w, map w and closure w whatever the schedule (on one processor every goroutine starts after the loop). One
+// template per arm of the go statement: function literal, function value, method of a script type, declared function,
+// host function.
+func spawn(r *rand.Rand, arm, decl, stmt string, host bool) Tmpl {
+	w := 3 + r.Intn(6)
+	var exp strings.Builder
+	for i := 0; i < w; i++ {
+		fmt.Fprintf(&exp, "%d %d %d %d\n", i, i*100+i, i*100+i+1, i)
+	}
+	body := func(imp, stub string) string {
+		return fmt.Sprintf(`package main
+
+import (
+	"fmt"
+	"sync"
+%s)
+%s
+type Obj struct{ base int }
+
+func (o *Obj) run(c chan int, p *int, m map[string]int, f func() int, id int, wg *sync.WaitGroup) {
+	work(c, p, m, f, id+o.base, wg)
+}
+
+func work(c chan int, p *int, m map[string]int, f func() int, id int, wg *sync.WaitGroup) {
+	v := f()
+	c <- v + id
+	*p = v + id + 1
+	m["k"] = id
+	wg.Done()
+}
+
+func main() {
+	const W = %d
+	chans := make([]chan int, W)
+	slots := make([]int, W)
+	maps := make([]map[string]int, W)
+	var ch chan int
+	var p *int
+	var m map[string]int
+	var f func() int
+	var wg sync.WaitGroup
+	obj := &Obj{}
+	_ = obj
+%s
+	for w := 0; w < W; w++ {
+		ch = make(chan int, W)
+		chans[w] = ch
+		p = &slots[w]
+		m = map[string]int{}
+		maps[w] = m
+		k := w * 100
+		f = func() int { return k }
+		wg.Add(1)
+		%s
+	}
+	wg.Wait()
+	for w := 0; w < W; w++ {
+		got := -1
+		if len(chans[w]) == 1 {
+			got = <-chans[w]
+		}
+		fmt.Println(w, got, slots[w], maps[w]["k"])
+	}
+}
+`, imp, stub, w, decl, stmt)
+	}
+	t := Tmpl{Name: "spawn-" + arm, Kind: "prog", Expect: exp.String(), ForceP1: true}
+	if host {
+		t.Src = body("\t\"verif\"\n", "")
+		t.RefSrc = body("", `
+type verifT struct{}
+
+func (verifT) Work(c chan int, p *int, m map[string]int, f func() int, id int, wg *sync.WaitGroup) {
+	work(c, p, m, f, id, wg)
+}
+
+var verif verifT
+`)
+	} else {
+		t.Src = body("", "")
+	}
+	return t
+}
+
+func tSpawnLit(r *rand.Rand) Tmpl {
+	return spawn(r, "literal", "", `go func(c chan int, p *int, m map[string]int, f func() int, id int, wg *sync.WaitGroup) {
+			work(c, p, m, f, id, wg)
+		}(ch, p, m, f, w, &wg)`, false)
+}
+
+func tSpawnFuncValue(r *rand.Rand) Tmpl {
+	return spawn(r, "func-value", `	fv := func(c chan int, p *int, m map[string]int, f func() int, id int, wg *sync.WaitGroup) {
+		work(c, p, m, f, id, wg)
+	}`, `go fv(ch, p, m, f, w, &wg)`, false)
+}
+
+func tSpawnMethod(r *rand.Rand) Tmpl {
+	return spawn(r, "method", "", `go obj.run(ch, p, m, f, w, &wg)`, false)
+}
+
+func tSpawnDeclared(r *rand.Rand) Tmpl {
+	return spawn(r, "declared", "", `go work(ch, p, m, f, w, &wg)`, false)
+}
+
+func tSpawnHost(r *rand.Rand) Tmpl {
+	return spawn(r, "host", "", `go verif.Work(ch, p, m, f, w, &wg)`, true)
 }
 
 // ---- stream C: one exported function called by N host goroutines ----
